@@ -16,6 +16,12 @@ structure Hist where
   qs : List (Nat × List (Nat × Nat)) := []
   /-- identities reserved for those children (not yet allocated) -/
   reserved : List Nat := []
+  /-- second layer: (instance, its run-time Type object) -/
+  types : List (Nat × Nat) := []
+  /-- objects whose destructor raises -/
+  raises : List Nat := []
+  /-- everything released so far -/
+  freed : List Nat := []
 
 def Hist.kindOf (h : Hist) (a : Nat) : Option Char := (h.kinds.find? (·.1 == a)).map (·.2)
 def Hist.allocated (h : Hist) (a : Nat) : Bool := h.kinds.any (·.1 == a)
@@ -47,7 +53,7 @@ def insertNat (a : Nat × Bool) : List (Nat × Bool) → List (Nat × Bool)
 def observe (tag : String) (h : Hist) (pend : List Nat) (withReg : Bool) (setOnly : Bool := false) : String :=
   -- the library's own Box has no destructor hook in the harness: only its release is observed
   let evs := h.st.log.filter (fun e => match e with
-    | .fin a => h.kindOf a != some 'B'
+    | .fin a => h.kindOf a != some 'B' && h.kindOf a != some 'T'
     | .free _ => true)
   let evs := if h.ordered && !setOnly then evs else evs.foldr insertEv []
   let evS := ",".intercalate (evs.map showEv)
@@ -68,19 +74,27 @@ def declareDtors (h : Hist) (s : St) : St :=
 def doOp (h : Hist) (tag : String) (op : Op) (withReg : Bool := true) (after : List Op := []) : Hist × String :=
   let s0 := declareDtors h { h.st with log := [] }
   let pend := stepPending sourceCfg s0 op
-  let s1 := (op :: after).foldl (step sourceCfg) s0
+  -- the second layer: the core model until a raising destructor is declared
+  let x0 : XSt := ⟨s0, h.types, h.raises, 0⟩
+  let x1 := stepX sourceCfg x0 op
+  let raised := x1.escaped > 0
+  -- (the constructor that follows `alloc` does not run when the exception comes out of the registration)
+  let s1 := if raised then x1.core else after.foldl (step sourceCfg) x1.core
+  -- a run-time Type object released before one of its instances: undefined behaviour from here on
+  if releasedFirstFrom h.freed h.types s1.log then ({ h with ended := true }, s!"O {tag} ub") else
   -- the allocating destructors that ran during the op: their children exist from now on
   let ran := h.qs.filter (fun (q, cs) => !cs.isEmpty && s1.log.contains (Ev.fin q))
   let born := ran.flatMap (fun (_, cs) => cs.map (·.1))
   let h' := { h with st := s1, kinds := born.map (fun c => (c, 'p')) ++ h.kinds,
-                     reserved := h.reserved.filter (fun c => !born.contains c) }
+                     reserved := h.reserved.filter (fun c => !born.contains c),
+                     freed := s1.log.filterMap (fun e => match e with | .free a => some a | _ => none) ++ h.freed }
   -- a registration that runs a threshold collection: the harness compares the set of finalised objects only (the real
   -- conservative stack scan may keep some garbage, which the harness then reclaims with a second collection); the same
   -- for an op during which an allocating destructor ran
   let setOnly := (match op with
     | .new _ k _ _ _ | .alloc _ k _ _ => k != .raw && s0.running && s0.reg.length + 1 > s0.mitems
     | _ => false) || !ran.isEmpty
-  (h', observe tag h' pend withReg setOnly)
+  (h', observe tag h' pend withReg setOnly ++ (if raised then " raised" else ""))
 
 def kindOfChar (c : Char) : Kind := if c = 'r' then .root else if c = 'w' then .raw else .std
 
@@ -162,6 +176,14 @@ def opLine2 (h : Hist) (toks : List String) : Hist × String :=
       if !(h.kindOf id == some 'p' || h.kindOf id == some 'q' || h.kindOf id == some 'b') then bad else
       doOp h "z" (Op.nulldel id)
     | none => bad
+  | ["r", idS] =>
+    -- from now on the destructor of the object raises (at the end of its body)
+    match idS.toNat? with
+    | some id =>
+      if !(h.kindOf id == some 'p' || h.kindOf id == some 'q' || h.kindOf id == some 'b' || h.kindOf id == some 'i') then bad else
+      let h' := { h with raises := id :: h.raises, st := { h.st with log := [] } }
+      (h', observe "r" h' [] true)
+    | none => bad
   | ["N"] => doOp h "N" Op.delNull
   | ["s"] => doOp h "s" Op.stop
   | ["t"] => doOp h "t" Op.start
@@ -183,7 +205,7 @@ def opLine (h : Hist) (toks : List String) : Hist × String :=
     if opS != "n" && opS != "a" then opLine2 h toks else
     match idS.toNat?, slotS.toNat?, kindS.toList, howS.toList with
     | some id, some slot, [kc], [hc] =>
-      if id ≥ 65536 || !("pqbBa".toList.contains kc) || !("srw".toList.contains hc) then bad else
+      if id ≥ 65536 || !("pqbBaTi".toList.contains kc) || !("srw".toList.contains hc) then bad else
       let owned? : Option (Option Nat) := if ownedS = "-" then some none else (ownedS.toNat?).map some
       match owned? with
       | none => bad
@@ -197,9 +219,14 @@ def opLine (h : Hist) (toks : List String) : Hist × String :=
         | some order =>
           if h.allocated id || h.reserved.contains id then bad else
           if kc != 'B' && slot ≥ 16384 then bad else
-          if (match owned with | some o => !h.allocated o || kc = 'p' || kc = 'q' || kc = 'a' | none => false) then bad else
+          -- T = a run-time Type object (`new(Type, …)`, slot = index of its block in the type region);
+          -- i = an instance of the run-time Type object named in the `owned` column (which must not have been released)
+          if kc = 'T' && (slot ≥ 16 || owned.isSome) then bad else
+          if kc = 'i' && (match owned with | some t => h.kindOf t != some 'T' || h.freed.contains t | none => true) then bad else
+          if kc != 'i' && (match owned with | some o => !h.allocated o || kc = 'p' || kc = 'q' || kc = 'a' | none => false) then bad else
           let marks := markSet h.st h.held ++ [id]
-          let ownedL := match owned with | some o => [o] | none => []
+          let ownedL := if kc = 'i' then [] else match owned with | some o => [o] | none => []
+          let h := if kc = 'i' then (match owned with | some t => { h with types := (id, t) :: h.types } | none => h) else h
           -- `a`: alloc / alloc_root / alloc_raw, then the constructor (its ownership link)
           let (h', line) :=
             if opS = "n" then doOp h "n" (Op.new id (kindOfChar hc) ownedL marks order)
